@@ -210,6 +210,12 @@ class Gen:
                     # with and without a handler registered for the stem
                     routes = [self.route(a, ("ret", {}))] if (ai + di) % 2 else []
                     cases.append(("unhandled", version, routes, self.frame("dv-%d" % len(cases), d, rng.choice(payloads))))
+            # 'the answer does not depend on the payload': payloads nested hundreds of levels deep (json.loads takes them)
+            for depth in (300, 600, 1200):
+                for (a, shape) in (("Heartbeat", "obj"), ("Nope", "arr"), (sorted(set(names) - set(acts))[0], "obj")):
+                    deep = ('{"a":' * depth + "1" + "}" * depth) if shape == "obj" else ("[" * depth + "]" * depth)
+                    routes = [self.route(a2, ("ret", {})) for a2 in rng.sample(acts, 2) if a2 != a]
+                    cases.append(("unhandled", version, routes, '[2,"deep-%d",%s,%s]' % (depth, json.dumps(a), deep), {"no_model": True}))
             for w in weird:
                 routes = [self.route(a2, ("ret", {})) for a2 in rng.sample(acts, 2)]
                 cases.append(("unhandled-weird", version, routes, json.dumps([2, "w", w, rng.choice(payloads)])))
@@ -521,6 +527,8 @@ def run_cases(rep, cases, tag, prop_id, oracle, async_modes=(False,), shard_size
             bad = oracle(kind, version, routes, raw, obs, info)
             for (key, what) in bad:
                 rep.violation("%s:%s" % (prop_id, key), what, replay)
+            if info.get("no_model"):
+                continue                  # judged by the oracle alone (e.g. nesting beyond what the model's evaluation is given)
             val, lo = D.loads_outcome(raw)
             co = D.cobs(obs)
             if lo is None or co is None:
